@@ -35,5 +35,11 @@ TEXTS = {
         level_text="Generated-schedule search where the interleaving of the read and compare-and-set steps of all callers is chosen by the generator, not by the Go scheduler: thousands of schedules per run including crash points before/after the CAS is applied and foreign writers. Exploration level: the schedule space is unbounded in callers and steps; it is sampled with shrinking to minimal interleavings.",
         level_note="Trusts the simulated Consul's cas= semantics; the whole-core part (START_ACTIVITY cancelled when no number can be obtained) is covered by the simworld checks, not here.",
     ),
+    "C05": dict(
+        engine="inprocess-rapid + simworld",
+        technique="property-based testing (rapid): reference implementations for constraint merge/satisfaction, port-expression round trip, offer/wants set arithmetic; native go fuzzing of the port expression parser; end-to-end placement check joins ACCEPT/DECLINE calls at the simulated Mesos master with the offers it sent",
+        level_text="Generated-input search against independent references for every pure placement predicate (tens of thousands of cases per run) plus generated whole-core deployments whose ACCEPT/DECLINE calls are checked against the offers. Exploration level: the input space (offers x descriptors x constraint trees) is unbounded.",
+        level_note="Only acceptance of an unsuitable agent/offer counts as a violation; the numeric port thresholds (9000/30000) are not part of the oracle.",
+    ),
 }
 NA_REASONS = {}
